@@ -165,7 +165,7 @@ func checkC16(c *core.Ctx) []core.Floor {
 	drv := mustDriver(c, false)
 	n := 24
 	if !core.Quick(c) {
-		n = 160
+		n = 96
 	}
 	core.ParallelFor(n, c.Workers, func(i int) { runC16(c, drv, i) })
 	minReload := int64(10000)
